@@ -7,7 +7,8 @@
 From Coq Require Import String List.
 From CMinx Require Import Base.Str Model.Lexer Model.Parser Model.Writer Model.DocTypes
      Model.Aggregator Spec.EntrySpec Spec.AggSpec Proofs.AggInv Proofs.AggDefs
-     Base.PySem Gen.PySource Proofs.SourceMatch.
+     Base.PySem Gen.PySource Proofs.SourceMatch
+     Proofs.SourceMatch2.
 Import ListNotations.
 
 (* every function()/macro() pushes one frame, its end command pops one: balanced bodies restore
@@ -114,3 +115,17 @@ Theorem C03_macro_process_matches_source :
        if kw then params ++ [kwargs_lit] else params).
 Proof. exact macro_process_matches_source. Qed.
 Print Assumptions C03_macro_process_matches_source.
+
+(* py2coq batch 4: process_cmake_parse_arguments as regenerated from aggregator.py equals the model step *)
+Theorem C03_process_cmake_parse_arguments_matches_source :
+  forall c doc st,
+    documented (process_cpa st)
+    = PySource.DocumentationAggregator_process_cmake_parse_arguments c doc
+        (documented st) (py_def_stack (def_stack st)).
+Proof. exact process_cmake_parse_arguments_matches_source. Qed.
+Print Assumptions C03_process_cmake_parse_arguments_matches_source.
+
+Theorem C03_process_cpa_frame :
+  forall st, same_stacks (process_cpa st) st /\ origins (process_cpa st) = origins st.
+Proof. exact process_cpa_frame. Qed.
+Print Assumptions C03_process_cpa_frame.
